@@ -244,6 +244,9 @@ def plan(tier, seed):
                         {'name': 'extend_drops_appendleft', 'cfg': by['extend-2-caller-fills']},
                         {'name': 'slot_default_when_filled', 'cfg': by['slot-x']},
                         {'name': 'fill_left_behind', 'cfg': by['unknown-fill-then-other-macro']}])
+    wj = [{'file': f, 'use': u, 'n': 2 if quick else 3} for f in (False, True) for u in (0, 1, 2)]
+    famW = dict(name='library_rewritten', module=H, fn='rewritten', jobs=wj, timeout=300 if quick else 1500, vacuity=1,
+                mutants=[{'name': 'macros_memoised', 'cfg': wj[0]}])
     return dict(
         level='translation_validation',
         functions=['chameleon.compiler:Compiler.visit_UseExternalMacro', 'chameleon.compiler:Compiler.visit_UseInternalMacro',
@@ -256,9 +259,9 @@ def plan(tier, seed):
                 'fill-slot, an unknown filler followed by another macro with a slot of that name, nested uses, extend-macro chains of length 2 and 3 with re-offered slots, macros of another '
                 'template, a whole template used as macro, local/global definitions inside macro bodies incl. global '
                 're-assignment across several uses, macroname; bindings (ints, flags, sequence lengths 0..3) decided by '
-                'the solver. Outside: depth > 3, fill-slot fillers of an extender that do not re-offer the slot while the '
-                'caller fills it too (METAL leaves the winner open), macro/slot names containing dots.' % len(jobs)),
+                'the solver; histories of %d steps over a library with 3 versions (string template re-written with write(), auto-reloading file template whose file changes), each step touching the library through macros[...], render(), macros.names, whole-template use or not at all before a caller (3 forms of use) renders: always the current version. Outside: depth > 3, fill-slot fillers of an extender that do not re-offer the slot while the '
+                'caller fills it too (METAL leaves the winner open), macro/slot names containing dots.' % (len(jobs), 2 if quick else 3)),
         assumptions=['metamorphic relation: the inliner vlib/metal_inline.py encodes the METAL semantics the property '
                      'states; both templates are compiled and rendered by the real implementation'],
-        families=[fam],
+        families=[fam, famW],
     )
